@@ -311,6 +311,20 @@ def _gating(ctx: Ctx, c: Collector) -> None:
                     return None if inner is None else (inner[0], x[1][1])
                 if x[0] == "tuple" and all(y[0] == "const" for y in x[1]):
                     return [y[1] for y in x[1]], "tuple"
+                if x[0] == "idx" and T.strip(x[2])[0] == "slice":
+                    # a slice of the version (`version[:2]`: "patch levels do not matter")
+                    inner = seq(x[1])
+                    sl = T.strip(x[2])
+                    bounds = []
+                    for b_ in sl[1:4]:
+                        b_ = T.strip(b_)
+                        if b_ == T.NONE:
+                            bounds.append(None)
+                        elif b_[0] == "const" and isinstance(b_[1], int):
+                            bounds.append(b_[1])
+                        else:
+                            return None
+                    return None if inner is None else (inner[0][slice(*bounds)], inner[1])
                 cl = const_list(x)
                 if cl is not None:
                     return cl, ("tuple" if len(x) > 2 and x[2] == "tuple" else "list")
